@@ -9,7 +9,7 @@ package main
 //	        sentinel marker, answers "PING" with "PONG" and "GATHER" with "GATHER ok|err ...", stops on "STOP".
 //	parent: a TCP client that plays the script of the case.
 //
-// Case: S = byte blobs, Z = script
+// Case: S = byte blobs as a table (head, unit, tail), Z = maxMsg, maxRec, ntab, repeat counts, then the script
 //
 //	1 connect (a new connection becomes the current one)   2 i   send blob i on the current connection
 //	3 close the current connection (FIN)                    4     abort it (RST: SO_LINGER 0)
@@ -74,8 +74,10 @@ func (w *c07AgentConsumer) run() {
 			}
 			env := &c07SampleEnv{}
 			env.record(w.output, chunk)
-			for _, b := range env.broken {
-				w.out.printf("BROKEN %s\n", strings.ReplaceAll(b, "\n", " "))
+			for i, b := range env.broken {
+				if i < 3 {
+					w.out.printf("BROKEN %s\n", strings.ReplaceAll(b, "\n", " "))
+				}
 			}
 			for _, d := range env.delivered {
 				w.out.printf("DEL %s %s\n", d.output, d.marker)
@@ -280,11 +282,24 @@ func c07SentinelsIn(blob []byte) []string {
 var c07AgentSeq int
 
 func c07RunAgent(c *Case) (out string, fails []Fail) {
-	if len(c.Z) < 2 {
+	if len(c.Z) < 3 {
 		return "badcase", nil
 	}
 	maxMsg, maxRec := int(c.Z[0]), int(c.Z[1])
-	script := c.Z[2:]
+	// the blobs are transported as a table of (head, unit, tail) + repeat count, like the records of kind 0
+	ntab := int(c.Z[2])
+	if ntab < 0 || len(c.Z) < 3+ntab || len(c.S) < 3*ntab {
+		return "badcase", nil
+	}
+	blobs := make([][]byte, ntab)
+	for i := 0; i < ntab; i++ {
+		reps := int(c.Z[3+i])
+		if reps < 0 || reps*len(c.S[3*i+1]) > 1<<26 {
+			return "badcase", nil
+		}
+		blobs[i] = append(append(append([]byte(nil), c.S[3*i]...), bytes.Repeat(c.S[3*i+1], reps)...), c.S[3*i+2]...)
+	}
+	script := c.Z[3+ntab:]
 	dir, err := os.MkdirTemp("", "c07a")
 	if err != nil {
 		panic(err)
@@ -306,7 +321,7 @@ func c07RunAgent(c *Case) (out string, fails []Fail) {
 	what := func() string {
 		var sb strings.Builder
 		fmt.Fprintf(&sb, "script %v; blobs:", script)
-		for i, b := range c.S {
+		for i, b := range blobs {
 			fmt.Fprintf(&sb, " [%d] %s", i, c07Short(b))
 			if sb.Len() > 1500 {
 				break
@@ -345,8 +360,8 @@ func c07RunAgent(c *Case) (out string, fails []Fail) {
 			}
 		case 2:
 			i++
-			if i < len(script) && conn != nil && script[i] >= 0 && int(script[i]) < len(c.S) {
-				blob := c.S[script[i]]
+			if i < len(script) && conn != nil && script[i] >= 0 && int(script[i]) < len(blobs) {
+				blob := blobs[script[i]]
 				conn.SetWriteDeadline(time.Now().Add(20 * time.Second))
 				if _, werr := conn.Write(blob); werr == nil {
 					sent = append(sent, c07SentinelsIn(blob)...)
@@ -418,8 +433,8 @@ func c07RunAgent(c *Case) (out string, fails []Fail) {
 		fails = append(fails, Fail{"c07:metrics-wedged", "after this input every metric collection of the agent fails: " + g + "; " + what()})
 	}
 	agent.mu.Lock()
-	for _, b := range agent.broken {
-		fails = append(fails, Fail{"c07:chunk-undecodable", b + "; " + what()})
+	if len(agent.broken) > 0 {
+		fails = append(fails, Fail{"c07:chunk-undecodable", fmt.Sprintf("%s (%d such events); %s", agent.broken[0], len(agent.broken), what())})
 	}
 	agent.mu.Unlock()
 	if _, ok := agent.ask("STOP", "BYE", 60*time.Second); !ok {
